@@ -225,7 +225,7 @@ pub fn check_claim3(lon: f64, lat: f64, r: f64, listed_kf1: bool, part: &mut Par
 pub fn run(ctx: &Ctx) -> i32 {
   let quick = ctx.quick();
   let listed_kf1 = ctx.findings.listed("C16", KF1);
-  let d1: u8 = if quick { 7 } else { 9 };
+  let d1: u8 = if quick { 8 } else { 10 };
   let d2: u8 = if quick { 4 } else { 6 };
   enum Job {
     C1(u8, u64, u64),
